@@ -22,11 +22,12 @@ for d in sorted(glob.glob(root + "/*/")):
         if m:
             ver = {"demo_on_clean_tree_rc": int(m.group(1)), "build_rc": int(m.group(2)),
                    "demo_with_patch_rc": int(m.group(3)), "baseline_tests_missing_with_patch": int(m.group(4))}
-        m = re.match(r"check (C\d+) rc=(\d+) (\d+)s sigs: (.*)", l)
+        m = re.match(r"(?:final )?check (C\d+) rc=(\d+) (\d+)s sigs: (.*)", l)
         if m:
             sigs = re.findall(r"sig=([^;\s]+)", m.group(4))
             checks.append({"check": m.group(1), "tier": "quick", "exit": int(m.group(2)), "seconds": int(m.group(3)),
-                           "signatures": sigs})
+                           "signatures": sigs, "against": "/repo with the patch applied (git -C /repo apply; undone afterwards)"
+                           if l.startswith("final ") else "the sub-agent's scratch worktree with the patch applied (VERIF_REPO)"})
     # keep the last result per check (re-runs after strengthening come later in the log)
     last = {}
     for c in checks:
